@@ -674,11 +674,16 @@ def run(ctx, res):
         res.notes.append('reduce.jdf dependency text could not be parsed: ordering oracle not evaluated')
     configs = [(1, 1), (1, 3), (2, 2), (4, 1)] if ctx.quick else [(1, 1), (1, 2), (1, 4), (2, 1), (2, 3), (3, 2), (4, 2), (4, 1)]
     jobs = []
+    scripts = {cfg: gen_script(rng.fork(k), cfg[0], ctx.quick, k) for k, cfg in enumerate(configs)}
     for c in load_corpus():
-        if not c['alone']:
+        if c['alone']:
+            continue                      # the crash / hang cases are the FINDING_CASES below
+        if (c['ranks'], c['cores']) in scripts:
+            scripts[(c['ranks'], c['cores'])] = c['lines'] + scripts[(c['ranks'], c['cores'])]      # corpus first, same launch
+        else:
             jobs.append(('corpus-' + c['name'].replace('.case', ''), c['ranks'], c['cores'], c['lines'], None))
-    for k, (ranks, cores) in enumerate(configs):
-        jobs.append(('gen-r%dc%d' % (ranks, cores), ranks, cores, gen_script(rng.fork(k), ranks, ctx.quick, k), None))
+    for (ranks, cores), lines in scripts.items():
+        jobs.append(('gen-r%dc%d' % (ranks, cores), ranks, cores, lines, None))
     for tag, ranks, cores, lines, key, what in FINDING_CASES:
         jobs.append((tag, ranks, cores, lines, (key, what)))
     tmo = 420 if ctx.quick else 1500
